@@ -29,7 +29,7 @@ from ..deviations import active, tla_set
 from ..tlc import MachineryError, SPECS, require_coverage, run_tlc, write_cfg
 
 FONT = os.path.join(SPECS, "font")
-CID_DEVS = ["IdentityOddRaises", "ToUnicodeByCID", "VerticalTzScales"]
+CID_DEVS = ["IdentityOddRaises", "ToUnicodeByCID", "VerticalTzScales", "EmptyIncrementBase"]
 FS = 10
 LINE = 200      # distance between the lines of lines_doc (more than any shown string advances vertically)
 
@@ -380,14 +380,18 @@ def tu_worker(batch):
     out = []
     for r, with_doc in batch:
         text = cmap_text(r["e"])
-        exp = {c: bytes(v).decode("utf-16-be") for (c, v) in pairs(r["m"]) if v}
+        exp = {c: bytes(v).decode("utf-16-be") for (c, v) in pairs(r["m"]) if list(v) != [-1]}      # [-1] = no entry
+        coded = {c: bytes(v).decode("utf-16-be") for (c, v) in pairs(r["mc"]) if list(v) != [-1]}
         try:
             real = real_parse_tounicode(text)
         except Exception as e:  # noqa: BLE001
             out.append([("tounicode-parse:%s" % type(e).__name__, "CMapParser raised %r on %s" % (e, r["e"]), {})])
             continue
         f = []
-        if real != exp:
+        if real != exp and real == coded:
+            f.append(("dev:EmptyIncrementBase", "ToUnicode sections %s: parsed map %r, expected %r (the empty target of a one-code "
+                      "bfrange in increment form)" % (brief_entries(r["e"]), real, exp), {}))
+        elif real != exp:
             f.append(("tounicode-map", "ToUnicode sections %s: parsed map %r, expected %r" % (brief_entries(r["e"]), real, exp),
                       {"observed": {str(k): v for k, v in real.items()}, "expected": {str(k): v for k, v in exp.items()}}))
         if with_doc:
@@ -397,7 +401,10 @@ def tu_worker(batch):
             try:
                 texts = [g[0] for g in fp.chars_of(pdf)[0]]
                 want = [exp.get(c, "(cid:%d)" % c) for c in cids]
-                if texts != want:
+                if texts != want and texts == [coded.get(c, "(cid:%d)" % c) for c in cids]:
+                    f.append(("dev:EmptyIncrementBase", "Identity-H font with ToUnicode %s: glyph texts %r, expected %r"
+                              % (brief_entries(r["e"]), texts, want), {}))
+                elif texts != want:
                     f.append(("tounicode-document", "Identity-H font with ToUnicode %s: glyph texts %r, expected %r"
                               % (brief_entries(r["e"]), texts, want), {}))
             except Exception as e:  # noqa: BLE001
@@ -442,11 +449,11 @@ def direction_a_tounicode(ck, futs, ppool):
                 k += 1
                 for key, what, detail in findings:
                     report(ck, key, what, {"kind": "tounicode", "entries": r["e"], "detail": detail})
-                nontriv = any(e["t"].startswith("bf") for e in r["e"]) and any(v for (_c, v) in pairs(r["m"]))
+                nontriv = any(e["t"].startswith("bf") for e in r["e"]) and any(list(v) != [-1] for (_c, v) in pairs(r["m"]))
                 ck.case(1, ("T", brief_entries(r["e"])) if nontriv else None)
                 if k % 1300 == 9 and len(ck.samples) < 4:
                     ck.sample({"tounicode_sections": brief_entries(r["e"]),
-                               "model_map": {("%04X" % c): bytes(v).hex() for (c, v) in pairs(r["m"]) if v}})
+                               "model_map": {("%04X" % c): bytes(v).hex() for (c, v) in pairs(r["m"]) if list(v) != [-1]}})
         total += len(recs)
     ck.replayed += total
     ck.extra["tounicode_cmaps_replayed"] = total
@@ -1465,11 +1472,12 @@ def run(ck):
     dv = "<- AllDev" if "IdentityOddRaises" in dev else "<- NoDev"
     add("seg", "MC_CIDFont.tla", cfg_with(ck, "MC_CIDFont.cfg", "seg.cfg",
                                           replace={"MaxLen = 5": "MaxLen = %d" % seg_len, "Dev <- AllDev": "Dev " + dv}))
+    tudev = "Dev <- AllDev" if "EmptyIncrementBase" in dev else "Dev <- NoDev"
     if quick:
-        add("tu2", "MC_CMapParse.tla", cfg_with(ck, "MC_CMapParse_2.cfg", "tu2.cfg"))
-        add("tu3", "MC_CMapParse.tla", cfg_with(ck, "MC_CMapParse_3.cfg", "tu3.cfg"))
+        add("tu2", "MC_CMapParse.tla", cfg_with(ck, "MC_CMapParse_2.cfg", "tu2.cfg", replace={"Dev <- NoDev": tudev}))
+        add("tu3", "MC_CMapParse.tla", cfg_with(ck, "MC_CMapParse_3.cfg", "tu3.cfg", replace={"Dev <- NoDev": tudev}))
     else:
-        add("tu3", "MC_CMapParse.tla", cfg_with(ck, "MC_CMapParse_2.cfg", "tu3.cfg", replace={"MaxEnt = 2": "MaxEnt = 3"}))
+        add("tu3", "MC_CMapParse.tla", cfg_with(ck, "MC_CMapParse_2.cfg", "tu3.cfg", replace={"MaxEnt = 2": "MaxEnt = 3", "Dev <- NoDev": tudev}))
     wl = 6 if quick else 7
     add("w", "MC_Widths.tla", cfg_with(ck, "MC_Widths_W.cfg", "w.cfg", replace={"MaxLen = 6": "MaxLen = %d" % wl}))
     add("w2", "MC_Widths.tla", cfg_with(ck, "MC_Widths_W2.cfg", "w2.cfg", replace={"MaxLen = 6": "MaxLen = %d" % (wl if quick else 6)}))
